@@ -21,6 +21,9 @@ func CrashKind(detail string) string {
 	if strings.Contains(detail, "runtime: out of memory") || strings.Contains(detail, "cannot allocate") && strings.Contains(detail, "fatal error") {
 		return "oom"
 	}
+	if strings.Contains(detail, "pthread_create failed") || strings.Contains(detail, "failed to create new OS thread") {
+		return "thread-create-failed"
+	}
 	if m := reFatal.FindStringSubmatch(detail); m != nil {
 		return "fatal-" + slug(m[1])
 	}
